@@ -160,8 +160,10 @@ pub fn maintenance() {
     let d0 = a.m.read(None).expect("read");
     sym::observe_i64(a.m.in_conflict().len() as i64);
     // meld without refresh touches storage only
+    let st0 = state(&a.m);
     a.m.meld(&b.m).expect("meld");
     assert!(a.m.read(None).unwrap() == d0, "meld without refresh changed the document");
+    assert!(state(&a.m) == st0, "meld without refresh changed the replica's state");
     match sym::choose(4) {
         0 => {
             // nothing unapplied in storage: refresh and reload are no-ops for the document
@@ -229,5 +231,45 @@ pub fn update_in_conflict() {
         assert!(seen2.iter().filter(|y| *y == x).count() == 1, "a submitted object does not appear exactly once after commit");
     }
     assert!(seen2.len() == submitted.len(), "objects that were not submitted appear after commit");
+    sym::reach(1);
+}
+
+/// C07 for flattened arrays: an array descriptor in conflict is resolved in favour of each of its live leaves.
+/// params: [k versions]
+pub fn resolve_array_conflict() {
+    let k = sym::param(0) as usize;
+    let c = concurrent(k, false);
+    let (a, mut b) = (c.a, c.b);
+    let arrays: Vec<String> = a.m.in_conflict().into_iter().filter(|id| id.starts_with('^')).collect();
+    if arrays.is_empty() {
+        sym::reach(2);
+        return;
+    }
+    let id = arrays[sym::choose(arrays.len())].clone();
+    let winner = a.m.get_winner(&id).expect("winner");
+    let mut leaves: Vec<String> = a.m.get_conflicting(&id).expect("conflicting").into_iter().collect();
+    leaves.push(winner.clone());
+    let chosen = leaves[sym::choose(leaves.len())].clone();
+    let before = a.m.read(None).expect("read before");
+    a.m.resolve_as(&id, &chosen).expect("resolve_as on an array descriptor");
+    assert!(!a.m.in_conflict().contains(&id), "array still in conflict after resolve_as");
+    assert!(a.m.get_conflicting(&id).unwrap().is_empty(), "conflicting revisions remain after resolve_as");
+    let after = a.m.read(None).expect("read after");
+    if chosen == winner {
+        assert!(after == before, "choosing the current winner changed the document");
+    }
+    // every surviving element is still there exactly once (no loss through the resolution)
+    for key in ["items♭", "more♭"] {
+        let ids = ids_of(&after, key);
+        for (i, x) in ids.iter().enumerate() {
+            assert!(!ids[i + 1..].contains(x), "an element appears twice after resolving the array");
+        }
+    }
+    let count = |d: &Map<String, Value>| ids_of(d, "items♭").len() + ids_of(d, "more♭").len();
+    assert!(count(&after) == count(&before), "resolving an array conflict lost or invented elements");
+    a.m.commit(None).expect("commit").expect("resolution produced no block");
+    assert!(a.m.read(None).unwrap() == after, "commit changed the resolved document");
+    b.pull(&a);
+    assert!(same_state(&b.m, &a.m), "array resolution did not propagate");
     sym::reach(1);
 }
